@@ -32,7 +32,7 @@
     does not transcribe, the function returns [OutOfFuel] (written
     [unmodelled]); the correspondence run counts such an answer as "no
     prediction" (it is reported in the evidence), so it can never stand in for
-    a real outcome.  The file follows /repo as of commit 6836c2c (where/reject/
+    a real outcome.  The file follows /repo as of commit 3880a38 (where/reject/
     find/has use Liquid equality and truthiness, compact treats a missing
     property as nil, map answers nil for a missing property).
 
@@ -193,6 +193,7 @@ Definition tablerow_step (t : tablerow) : tablerow :=
 Definition blockdrop_getattr (name : str) : option fval :=
   if mem_str name [lit "step"; lit "_keys"; lit "__next__"] then None
   else if mem_str name [lit "token"; lit "buffer"; lit "context"; lit "parent"] then Some (FOpaque 3)
+  else if str_eqb name (lit "__getitem_async__") then Some (FOpaque 5)   (* the async twin of __getitem__ *)
   else if str_eqb name (lit "name") then Some (FOpaque 4)
   else match index_of name drop_internal_names 100 with
        | Some tg => Some (FOpaque tg)
@@ -559,13 +560,6 @@ Fixpoint py_list_contains (l : list val) (x : val) : res bool :=
   match l with
   | [] => Ok false
   | y :: l' => do e <- py_eq y x;; if e then Ok true else py_list_contains l' x
-  end.
-
-(** [l.index(x) == i] helper: position of the first element equal to x. *)
-Fixpoint py_list_index (l : list val) (x : val) (n : nat) : res (option nat) :=
-  match l with
-  | [] => Ok None
-  | y :: l' => do e <- py_eq y x;; if e then Ok (Some n) else py_list_index l' x (S n)
   end.
 
 (** substring test *)
@@ -1015,6 +1009,22 @@ Definition select_by (keep_if : bool) (l : list val) (rs : list val) : list val 
     (List.filter (fun p => Bool.eqb (negb (is_undef (snd p)) && is_truthy (snd p)) keep_if)
        (combine l rs)).
 
+(** uniq_filter.py _contains(seen, obj): any(item is obj or _eq(item, obj)) —
+    identity, else Liquid equality (1 != true). *)
+Definition same_obj (a b : val) : bool :=
+  match a, b with
+  | VObj h _ _ _ _, VObj h' _ _ _ _ => N.eqb (o_id h) (o_id h')
+  | _, _ => false
+  end.
+
+Fixpoint liq_list_contains (l : list val) (x : val) : res bool :=
+  match l with
+  | [] => Ok false
+  | y :: l' =>
+      if same_obj y x then Ok true
+      else do e <- liq_eq y x;; if e then Ok true else liq_list_contains l' x
+  end.
+
 (** uniq with keys: the list of seen keys, MISSING being a fresh object equal
     only to itself.  [None] = MISSING. *)
 Fixpoint uniq_keys (l : list (val * option val)) (missing : bool) (keys : list val)
@@ -1025,7 +1035,7 @@ Fixpoint uniq_keys (l : list (val * option val)) (missing : bool) (keys : list v
       if missing then uniq_keys l' true keys
       else rmap (cons obj) (uniq_keys l' true keys)
   | (obj, Some k) :: l' =>
-      do seen <- py_list_contains keys k;;
+      do seen <- liq_list_contains keys k;;
       if seen then uniq_keys l' missing keys
       else rmap (cons obj) (uniq_keys l' missing (keys ++ [k]))
   end.
@@ -1043,7 +1053,7 @@ Fixpoint uniq_prop (k : val) (l : list val) (missing : bool) (keys : list val)
           else rmap (cons obj) (uniq_prop k l' true keys)
       | PyExc TypeError => LErr LiquidTypeError None
       | Ok item =>
-          do seen <- py_list_contains keys item;;
+          do seen <- liq_list_contains keys item;;
           if seen then uniq_prop k l' missing keys
           else rmap (cons obj) (uniq_prop k l' missing (keys ++ [item]))
       | PyExc e => PyExc e
@@ -1052,13 +1062,17 @@ Fixpoint uniq_prop (k : val) (l : list val) (missing : bool) (keys : list val)
       end
   end.
 
-(** [obj for i, obj in enumerate(left) if left.index(obj) == i] *)
-Definition uniq_plain (l : list val) : res (list val) :=
-  rmap (List.map fst)
-    (filterM (fun p : val * nat =>
-                do ix <- py_list_index l (fst p) 0;;
-                Ok (match ix with Some j => Nat.eqb j (snd p) | None => false end))
-             (combine l (seq 0 (List.length l)))).
+(** UniqFilter without a key: keep an item unless an equal one was kept before. *)
+Fixpoint uniq_items (l : list val) (items : list val) : res (list val) :=
+  match l with
+  | [] => Ok []
+  | obj :: l' =>
+      do seen <- liq_list_contains items obj;;
+      if seen then uniq_items l' items
+      else rmap (cons obj) (uniq_items l' (items ++ [obj]))
+  end.
+
+Definition uniq_plain (l : list val) : res (list val) := uniq_items l [].
 
 (** The lazy zip(left, key.map(context, left)) of find / find_index / has:
     stops at the first item whose lambda result is defined and truthy. *)
@@ -1147,7 +1161,8 @@ Definition apply_filter (async : bool) (c : ctx) (f : fcall) (left : val) : res 
                       (combine l rs))))
   | FCompact, [APos e] =>
       do k <- eval_pexpr async c e;;
-      if is_nil k then Ok (VList false (List.filter (fun itm => negb (is_nil itm)) (sequence_arg left)))
+      if is_nil k || is_undef k
+      then Ok (VList false (List.filter (fun itm => negb (is_nil itm)) (sequence_arg left)))
       else rmap (VList false) (filterM (fun itm => do x <- f_property itm k;; Ok (negb (is_nil x)))
                                (sequence_arg left))
   (* uniq_filter.py UniqFilter *)
@@ -1159,7 +1174,7 @@ Definition apply_filter (async : bool) (c : ctx) (f : fcall) (left : val) : res 
                             false [])
   | FUniq, [APos e] =>
       do k <- eval_pexpr async c e;;
-      if is_nil k then rmap (VList false) (uniq_plain (sequence_arg left))
+      if is_nil k || is_undef k then rmap (VList false) (uniq_plain (sequence_arg left))
       else rmap (VList false) (uniq_prop k (sequence_arg left) false [])
   (* sorting_filters.py SortFilter *)
   | FSort, [] =>
@@ -1282,7 +1297,7 @@ Definition apply_filter (async : bool) (c : ctx) (f : fcall) (left : val) : res 
       do ss <- mapM to_liquid_string (sequence_arg left);; Ok (VStr (join_str (lit " ") ss))
   | FJoin, [APos e] =>
       do sep <- eval_pexpr async c e;;
-      do seps <- py_str sep;;
+      do seps <- to_liquid_string sep;;          (* a separator that is not a str: its Liquid string form *)
       do ss <- mapM to_liquid_string (sequence_arg left);; Ok (VStr (join_str seps ss))
   (* misc.py default (allow_false not modelled) *)
   | FDefault, args =>
